@@ -71,9 +71,11 @@ Section Hist.
     exists F' d ev,
       s_tr ss' = trace_evs (s_tr ss) ev /\
       rep H (resolve_of H PathScheme S) (dirty_at ss') (delp_of (s_tr ss')) true [] (s_root ss') F' /\
-      forall fu', (length (keybytes_to_hex key) < fu')%nat ->
+      (forall fu', (length (keybytes_to_hex key) < fu')%nat ->
         exists ev', delete (resolve_of H PathScheme S) fu' F [] (keybytes_to_hex key) = TOk (d, F', ev') /\
-                    nores ev' = nores ev.
+                    nores ev' = nores ev) /\
+      delete (resolve_of H PathScheme S) (ops_fuel (keybytes_to_hex key)) (s_root ss) []
+             (keybytes_to_hex key) = TOk (d, s_root ss', ev).
   Proof.
     intros [GO Rp] BK E. unfold sess_update in E.
     set (k := keybytes_to_hex key) in *.
@@ -98,7 +100,7 @@ Section Hist.
     destruct (delete_rep H H_len (resolve_of H PathScheme S) (dirty_at ss) (dirty_at ss')
                 (delp_of (s_tr ss)) (delp_of (s_tr ss')) DM
                 _ _ _ _ _ _ _ _ _ DE Rp Wp DP DK) as (F' & X1 & _ & _ & _ & X5).
-    exists F', d, ev. split; [reflexivity|]. split; [exact X1|exact X5].
+    exists F', d, ev. split; [reflexivity|]. split; [exact X1|]. split; [exact X5|first [exact DE|reflexivity]].
   Qed.
 
   (* the guard on operations: byte keys; keys and values shorter than 2^32 bytes *)
@@ -124,7 +126,7 @@ Section Hist.
     { intros F' [[X _]|[_ [->|Cn]]] Sz'; [subst k; rewrite X in Vk; inversion Vk|left; reflexivity|].
       right. split; [exact Cn|apply can_sizes_pwf; assumption]. }
     destruct v as [|x v].
-    - destruct (sess_delete_rep S ss F key ss' SI BK E) as (F' & d & evm & _ & Rp' & GR). fold k in GR.
+    - destruct (sess_delete_rep S ss F key ss' SI BK E) as (F' & d & evm & _ & Rp' & GR & _). fold k in GR.
       destruct (delete_spec (resolve_of H PathScheme S) (ops_fuel k) F [] k (ops_fuel_ok k) Wp)
         as (d0 & n0 & ev0 & DE0 & PO).
       destruct (GR (ops_fuel k) (ops_fuel_ok k)) as (ev' & DE' & _). rewrite DE0 in DE'. inversion DE'; subst d0 n0 ev0.
@@ -134,7 +136,7 @@ Section Hist.
         rewrite (L2 k' NE) in L'. apply Sz. exact L'. }
       exists F'. split; [split; [apply FIN; [apply CP; exact Cp|exact Sz']|exact Rp']|].
       split; [exact Sz'|]. split; [exact L1|exact L2].
-    - destruct (sess_insert_rep H H_len S ss F key x v ss' SI BK E) as (F' & d & evm & _ & Rp' & GR). fold k in GR.
+    - destruct (sess_insert_rep H H_len S ss F key x v ss' SI BK E) as (F' & d & evm & _ & Rp' & GR & _). fold k in GR.
       destruct (insert_spec (resolve_of H PathScheme S) (ops_fuel k) F [] k (x :: v) (ops_fuel_ok k) Wp)
         as (d0 & n0 & ev0 & DE0 & PO).
       destruct (GR (ops_fuel k) (ops_fuel_ok k)) as (ev' & DE' & _). rewrite DE0 in DE'. inversion DE'; subst d0 n0 ev0.
@@ -165,52 +167,6 @@ Section Hist.
   | r_getnode S ss path g ss' :
       reachable S ss -> sess_getnode H PathScheme S ss path = (g, ss') -> reachable S ss'.
 
-  Theorem reachable_sinv S ss : reachable S ss -> exists F, sinv H S ss F /\ gsizes F.
-  Proof.
-    induction 1 as [ss O|S ss r ons ss2 Rch IH C O|S ss key v ss' Rch IH OK U|S ss key v ss' Rch IH BK G|S ss path g ss' Rch IH G].
-    - destruct (open_sinv H H_len H_inj_empty [] _ NEmpty (store_ok_empty H)) as (ss0 & O0 & SI).
-      rewrite O in O0. inversion O0; subst ss0. exists NEmpty. split; [exact SI|].
-      intros k v L. rewrite lk_empty in L. discriminate.
-    - destruct IH as (F & SI & Sz).
-      destruct (open_sinv H H_len H_inj_empty _ _ F (commit_store_ok H H_len S ss F r ons SI C)) as (ss0 & O0 & SI0).
-      rewrite O in O0. inversion O0; subst ss0. exists F. split; assumption.
-    - destruct IH as (F & SI & Sz).
-      destruct (sess_update_sinv S ss F key v ss' SI Sz OK U) as (F' & SI' & Sz' & _).
-      exists F'. split; assumption.
-    - destruct IH as (F & SI & Sz).
-      destruct (sess_get_sinv H H_len H_inj_empty S ss F key v ss' SI BK G) as [SI' _].
-      exists F. split; assumption.
-    - destruct IH as (F & SI & Sz). exists F. split; [|exact Sz].
-      eapply sess_getnode_sinv; eassumption.
-  Qed.
-
-  (* C07 commit_reads_back, path scheme, FULL over multi-generation histories:
-     committing any reachable session and reopening at the returned root from the
-     updated store succeeds, and every byte key reads there exactly what it read
-     in the in-memory trie before the commit *)
-  Theorem commit_reads_back S ss r ons key :
-    reachable S ss -> commit H ss = Some (r, ons) -> forallb byteb key = true ->
-    exists ss2,
-      open_trie H PathScheme (applied S ons) r = TOk ss2 /\
-      exists v t1 d1 ev1 t2 d2 ev2,
-        trie_get (resolve_of H PathScheme S) (s_root ss) key = TOk (v, t1, d1, ev1) /\
-        trie_get (resolve_of H PathScheme (applied S ons)) (s_root ss2) key = TOk (v, t2, d2, ev2).
-  Proof.
-    intros Rch C BK. destruct (reachable_sinv S ss Rch) as (F & SI & _).
-    destruct (commit_reads_back_sinv H H_len H_inj_empty S ss F r ons key SI C BK)
-      as (ss2 & O & v & t1 & d1 & ev1 & t2 & d2 & ev2 & G1 & G2 & _).
-    exists ss2. split; [exact O|]. exists v, t1, d1, ev1, t2, d2, ev2. split; assumption.
-  Qed.
-
-  (* and the store after the commit holds exactly-enough: every hashed node of the
-     ground trie is stored at its path (the "none missing" half of commit_exact_path) *)
-  Theorem commit_none_missing S ss r ons :
-    reachable S ss -> commit H ss = Some (r, ons) ->
-    exists F, store_ok H (applied S ons) r F.
-  Proof.
-    intros Rch C. destruct (reachable_sinv S ss Rch) as (F & SI & _).
-    exists F. eapply commit_store_ok; eassumption.
-  Qed.
 End Hist.
 
 (* ------------------------------------------------------------------ *)
